@@ -5,18 +5,19 @@ this property applied; the code before those commits is kept in `NV/C17/Witness.
   (a) the staleness decision of `load_binary` (`check_times`, magic / driver_id / config_id, include list, name check,
       inherited sources and inherited binaries, "inherited program not loaded yet") and the retry loop of `load_object`
       around it, over a file system of modification times;
-  (b) `sort_function_table`: permutation table by sorting, inverse table, the in-place sort by n-1 swaps driven by
+  (b) `sort_function_table`: permutation table by `quickSort`, inverse table, the in-place sort by n-1 swaps driven by
       `sorttmp`/`invtmp`, the `f_index` remap loops of the COMPRESS_FUNCTION_TABLES build, the `type_start` copy;
   (c) `locate_out` / `locate_in`;
   (d) `patch_out` / `patch_in` of string switch tables.
 
 C arrays are `Arr` = size + total function; every C access is an explicit bounds-checked `read`/`write` that yields
 `none` (= the C program would touch memory outside the array: crash) when the index is out of range.
-`quickSort` is modelled by its contract: the result is the sorted permutation (Lean's `List.mergeSort` with the C
-comparator); with a comparator that is a total order on distinct keys the result is unique, so the choice of algorithm is
-not observable.
+`quickSort` is modelled from its code (NV/C17/QSort.lean mirrors lib/misc/qsort.c: median swap, partition loop, the two
+recursive calls); its contract — stays inside the array, permutation, sorted for a strict order — is proved in
+NV/C17/QSortLemmas.lean and used by the theorems below.
 -/
 import NV.Gen.C17
+import NV.C17.QSort
 
 namespace NV.C17
 
@@ -135,16 +136,17 @@ structure FunTabs (α τ : Type) where
   ct : CT
   typeStart : Option (List τ)    -- none: prog->type_start == 0
 
-/-- `quickSort (temp, num, sizeof (int), compare_compiler_funcs)` on temp = 0..num-1 -/
-def sortPerm {α} (le : α → α → Bool) [Inhabited α] (table : List α) : List Nat :=
-  (List.range table.length).mergeSort (fun x y => le (table.getD x default) (table.getD y default))
+/-- `for (i = 0; i < num; i++) temp[i] = i; comp_prog = prog;
+    quickSort (temp, num, sizeof (int), compare_compiler_funcs)`; `lt x y` = the comparison answers < 0 -/
+def sortPerm {α} (lt : α → α → Bool) [Inhabited α] (table : List α) : Option (List Nat) :=
+  quickSortL (fun x y => lt (table.getD x default) (table.getD y default)) (List.range table.length)
 
-def sortFunctionTable {α τ} [Inhabited α] [Inhabited τ] (le : α → α → Bool) (p : FunTabs α τ) :
+def sortFunctionTable {α τ} [Inhabited α] [Inhabited τ] (lt : α → α → Bool) (p : FunTabs α τ) :
     Option (FunTabs α τ) := do
   let num := p.table.length
   if num = 0 then pure p
   else do
-    let temp := Arr.ofList (sortPerm le p.table)
+    let temp := Arr.ofList (← sortPerm lt p.table)
     let inverse ← mkInverse temp
     let tab ← swapLoop (Arr.ofList p.table) temp inverse
     let slots ← visitedSlots p.ct (Arr.ofList p.flags) p.flags.length
@@ -168,6 +170,13 @@ def cfLe (a b : CF) : Bool :=
   if a.hash then b.hash
   else if b.hash then true
   else a.key ≤ b.key
+
+/-- `compare_compiler_funcs (x, y) < 0` (what qSort asks): `n1[0] == '#'` → 0 or 1, never negative;
+    `n2[0] == '#'` → -1; otherwise `n1 < n2` -/
+def cfLt (a b : CF) : Bool :=
+  if a.hash then false
+  else if b.hash then true
+  else a.key < b.key
 
 /-! ## (c) locate_out / locate_in -/
 
@@ -206,6 +215,27 @@ def locateIn (b : BitVec 64) (p : ProgPtrs) : ProgPtrs :=
     argumentTypes := if p.typeStart ≠ 0 then p.argumentTypes + b else p.argumentTypes,
     typeStart := if p.typeStart ≠ 0 then p.typeStart + b else p.typeStart }
 
+/-- the C names of the members of `ProgPtrs`, in the order in which `locateOut` / `locateIn` (and the C functions) treat
+    them; true = relocated only `if (prog->type_start)`.  Compared with the assignments read from locate_out and
+    locate_in on every run (`relocation_members_tied`). -/
+def relocatedMembers : List (String × Bool) :=
+  [("program", false), ("function_table", false), ("function_flags", false), ("function_offsets", false),
+   ("function_compressed", false), ("strings", false), ("variable_table", false), ("variable_types", false),
+   ("inherit", false), ("classes", false), ("class_members", false), ("argument_types", true), ("type_start", true)]
+
+/-- pointer members of `program_t` that do not point into the program block: `load_binary` re-creates them
+    (`p->name = make_shared_string (name)`, `p->file_info = DXALLOC …`, `p->line_info = &p->file_info[…]`) -/
+def rebuiltMembers : List String := ["name", "line_info", "file_info"]
+
+/-- what the code generator stores with `ins_intptr`: the key of a switch table entry — the address of a program
+    string for a string switch (the ONE address-valued operand in the byte code, recorded in the patch list), the 0
+    label, or the number of a numeric case -/
+def modelIntptrOperands : List String :=
+  ["(intptr_t)PROG_STRING (pn->r.number)", "(intptr_t) 0", "(intptr_t) pn->r.expr"]
+
+/-- statements of qSort + quickSort that NV/C17/QSort.lean mirrors -/
+def modelQsortStatements : Nat := 13
+
 def ProgPtrs.fields (p : ProgPtrs) : List (BitVec 64) :=
   [p.program, p.functionTable, p.functionFlags, p.functionOffsets, p.functionCompressed, p.strings, p.variableTable,
    p.variableTypes, p.inherit, p.classes, p.classMembers, p.argumentTypes, p.typeStart]
@@ -241,13 +271,17 @@ def patchOutTable (strings : List Int) (es : List SwEntry) : Option (List SwEntr
 /-- `str_case_cmp (a, b) <= 0`: the keys compared as `intptr_t` -/
 def swLe (a b : SwEntry) : Bool := a.key ≤ b.key
 
-/-- patch_in on one table: indices become the addresses of the re-created strings, then the table is sorted -/
+/-- `str_case_cmp (a, b) < 0` (what qSort asks) -/
+def swLt (a b : SwEntry) : Bool := a.key < b.key
+
+/-- patch_in on one table: indices become the addresses of the re-created strings, then
+    `quickSort (&p[start], (break_addr - start) / SWITCH_CASE_SIZE, SWITCH_CASE_SIZE, str_case_cmp)` -/
 def patchInTable (strings : List Int) (es : List SwEntry) : Option (List SwEntry) := do
   let es' ← es.mapM (fun e =>
     if e.key = -1 then some { e with key := 0 }
     else if e.key < 0 then none
     else (strings[e.key.toNat]?).map (fun p => { e with key := p }))
-  pure (es'.mergeSort swLe)
+  quickSortL swLt es'
 
 /-! ## (a) the staleness decision -/
 
@@ -259,7 +293,7 @@ structure BinFile where
   name : String
   inherits : List String       -- names as written: "dir/file.c"
   intact : Bool := true        -- the trailing checksum matches the bytes before it
-  deriving Repr, BEq, Inhabited
+  deriving Repr, BEq, DecidableEq, Inhabited
 
 /-- "<SaveBinaryDir>/<name>" with the last character replaced by 'b' -/
 def stdBinOf (binDir : String) (name : String) : String :=
@@ -274,6 +308,9 @@ def stdObjOf (name : String) : String :=
 structure LoadedProg where
   files : List String
   inherits : List String
+  gen : Nat := 0                          -- which program block this is (a new number for every load of the name)
+  loadTime : Nat := 0                     -- `ob->load_time` of the object that owns it
+  linked : List (String × Nat) := []      -- `prog->inherit[i].prog`: name and block number of every inherited program
   deriving Repr, BEq, Inhabited
 
 structure World where
@@ -331,6 +368,24 @@ def checkInherits (w : World) (mtime : Nat) : List String → Decision
     else if treeNewer w mtime treeFuel inh then .stale "behind-inherited"
     else checkInherits w mtime rest
 
+/-- `inherited_program_outdated (prog)` for the program block number `g` of `name` that an heir is linked with: it is
+    no longer the program of the loaded object of that name (`find_object_by_name` fails or `ob->prog != prog`), one of
+    the files it was built from was modified after the object was loaded (`check_times (ob->load_time, file) == 0`),
+    or the same holds for a program it inherits.  Fuel as in `treeNewer`: out of fuel counts as outdated. -/
+def progOutdated (w : World) : Nat → String → Nat → Bool
+  | 0, _, _ => true
+  | fuel + 1, name, g =>
+    match w.progs.lookup name with
+    | none => true
+    | some lp =>
+      !(w.loaded.contains (objName w name)) || lp.gen != g ||
+        lp.files.any (fun f => checkTimes w lp.loadTime f == 0) ||
+        lp.linked.any (fun pg => progOutdated w fuel pg.1 pg.2)
+
+/-- the test at the head of `save_binary`: no inherited program is outdated -/
+def saveAllowed (w : World) (linked : List (String × Nat)) : Bool :=
+  !(linked.any (fun pg => progOutdated w treeFuel pg.1 pg.2))
+
 def magicId : String := Gen.C17.magicId
 def driverId : Nat := Gen.C17.driverId
 
@@ -353,6 +408,7 @@ def loadBinary (w : World) (name : String) : Decision :=
 structure ProgDecl where
   name : String                -- "dir/file.c"
   save : Bool                  -- #pragma save_binary
+  refuse : Bool := false       -- the master's valid_save_binary() refuses this program
   includes : List String
   inherits : List String
   deriving Repr, BEq, Inhabited
@@ -360,52 +416,72 @@ structure ProgDecl where
 inductive Ev where
   | lb (name : String) (d : Decision)
   | sv (name : String) (t : Nat) (includes : List String)
+  | svSkipped (name : String)      -- `#pragma save_binary` in force, but save_binary() returned without writing
   | loadfail (name : String)
-  deriving Repr, BEq
+  deriving Repr, BEq, DecidableEq
 
 structure Sys where
   w : World := {}
   decls : List ProgDecl := []
-  vnow : Nat := 1000
+  vnow : Nat := 1000           -- clock of the files the driver writes
+  ctime : Nat := 0             -- `current_time`: the load time of objects loaded now
+  gens : Nat := 0              -- program blocks created so far
   evs : List Ev := []          -- newest first
   deriving Inhabited
 
 def Sys.decl (s : Sys) (name : String) : Option ProgDecl := s.decls.find? (·.name == name)
 
+/-- the end of a compile (`epilog`): with `#pragma save_binary` in force `save_binary` is called, which writes the binary
+    (current `config_id`, modification time = now) unless the master refuses (`valid_save_binary`) or an inherited program
+    is outdated -/
+def saveStep (s : Sys) (d : ProgDecl) (linked : List (String × Nat)) : Sys :=
+  if !d.save then s
+  else if d.refuse || !(saveAllowed s.w linked) then { s with evs := Ev.svSkipped d.name :: s.evs }
+  else
+    let bp := binPath s.w d.name
+    let b : BinFile := { magic := magicId, driverId := driverId, configId := s.w.configId,
+                         includes := d.includes, name := d.name, inherits := d.inherits }
+    { s with w := { s.w with files := (bp, s.vnow) :: s.w.files.filter (·.1 != bp),
+                             bins := (bp, b) :: s.w.bins.filter (·.1 != bp) },
+             vnow := s.vnow + 1, evs := Ev.sv d.name s.vnow d.includes :: s.evs }
+
+/-- the object exists now: a new program block, linked with the blocks of the inherited programs as loaded -/
+def enterProgram (s : Sys) (name : String) (d : ProgDecl) (linked : List (String × Nat)) : Sys :=
+  let lp : LoadedProg := { files := name :: d.includes, inherits := d.inherits, gen := s.gens + 1, loadTime := s.ctime,
+                           linked := linked }
+  { s with gens := s.gens + 1,
+           w := { s.w with loaded := objName s.w name :: s.w.loaded,
+                           progs := (name, lp) :: s.w.progs.filter (·.1 != name) } }
+
+/-- `prog->inherit[i].prog` for a program compiled or loaded now -/
+def linkNow (w : World) (inherits : List String) : List (String × Nat) :=
+  inherits.map (fun p => (p, ((w.progs.lookup p).map (·.gen)).getD 0))
+
 /-- `load_object (name)`: try the binary; otherwise compile, which aborts at the first inherit that is not loaded;
-    in both cases the inherit is loaded and everything starts again -/
-def loadObject (s : Sys) (name : String) : Nat → Sys × Bool
+    in both cases the inherit is loaded and everything starts again.  `useBin = false`: binaries are neither read nor
+    written (the harness's reference compile of the current sources). -/
+def loadObject (s : Sys) (name : String) (useBin : Bool := true) : Nat → Sys × Bool
   | 0 => (s, false)
   | fuel + 1 =>
     match s.w.mtime name, s.decl name with
     | some _, some d =>
-      let dec := loadBinary s.w name
-      let s := { s with evs := Ev.lb name dec :: s.evs }
-      let lp : LoadedProg := { files := name :: d.includes, inherits := d.inherits }
+      let dec := if useBin then loadBinary s.w name else .stale "disabled"
+      let s := if useBin then { s with evs := Ev.lb name dec :: s.evs } else s
       let retryWith (s : Sys) (inh : String) : Sys × Bool :=
-        let (s, ok) := loadObject s inh fuel
+        let (s, ok) := loadObject s inh useBin fuel
         if !ok then (s, false)
         else if s.w.loaded.contains (objName s.w name) then (s, true)
-        else loadObject s name fuel
+        else loadObject s name useBin fuel
       match dec with
-      | .use => ({ s with w := { s.w with loaded := objName s.w name :: s.w.loaded,
-                                          progs := (name, lp) :: s.w.progs.filter (·.1 != name) } }, true)
+      | .use => (enterProgram s name d (linkNow s.w d.inherits), true)
       | .needs inh => retryWith s inh
       | .stale _ =>
         match d.inherits.find? (fun i => !(s.w.loaded.contains (objName s.w i))) with
         | some inh => retryWith s inh
         | none =>
-          let s :=
-            if d.save then
-              let bp := binPath s.w name
-              let b : BinFile := { magic := magicId, driverId := driverId, configId := s.w.configId,
-                                   includes := d.includes, name := name, inherits := d.inherits }
-              { s with w := { s.w with files := (bp, s.vnow) :: s.w.files.filter (·.1 != bp),
-                                       bins := (bp, b) :: s.w.bins.filter (·.1 != bp) },
-                       vnow := s.vnow + 1, evs := Ev.sv name s.vnow d.includes :: s.evs }
-            else s
-          ({ s with w := { s.w with loaded := objName s.w name :: s.w.loaded,
-                                    progs := (name, lp) :: s.w.progs.filter (·.1 != name) } }, true)
+          let linked := linkNow s.w d.inherits
+          let s := if useBin then saveStep s d linked else s
+          (enterProgram s name d linked, true)
     | _, _ => ({ s with evs := Ev.loadfail name :: s.evs }, false)
 
 /-- the mudlib-relative name of the configured simul_efun file (leading slashes dropped, ".c" optional) -/
